@@ -208,13 +208,9 @@ async def _drive_rx(case, loop):
             futs[k] = loop.create_future()
         return futs[k]
 
-    async def wait(k):
-        return await fut(k)
-
-    def slow(v):
-        k = ncalls[0]                     # evaluation number = order of the calls
+    async def slow(v):                    # evaluation number = the input value it was called with
         ncalls[0] += 1
-        return wait(k)
+        return await fut(v)
     r = param.rx(0)
     e = r.rx.pipe(slow)
     log = []
@@ -223,7 +219,7 @@ async def _drive_rx(case, loop):
     def snap():
         v = e.rx.value
         o = {'value': None if v is param.Undefined else v,
-             'log': [x for x in log if x is not param.Undefined], 'calls': ncalls[0]}
+             'log': [x for x in log if x is not param.Undefined and x is not None], 'calls': ncalls[0]}
         del log[:]
         return o
     out = {'steps': []}
